@@ -5,6 +5,7 @@ import OrasModel.Driver.Cp
 import OrasModel.Driver.Fr
 import OrasModel.Driver.O
 import OrasModel.Driver.Cr
+import OrasModel.Driver.Pf
 open Oras.Driver
 
 structure DState where
@@ -26,6 +27,9 @@ def handle (st : DState) (line : String) : DState × String :=
   | "case" :: _ => ({}, "m=ok s=ok")
   | "g" :: rest => answer (G.step st.g rest) st (fun g => { st with g := g })
   | "cr" :: rest => (match Cr.step rest with
+      | some (m, s) => (st, s!"m={m} s={s}")
+      | none => (st, "bad-op"))
+  | "pf" :: rest => (match Pf.step rest with
       | some (m, s) => (st, s!"m={m} s={s}")
       | none => (st, "bad-op"))
   | "ref" :: rest => (match R.step rest with
